@@ -30,7 +30,7 @@ ASSUMPTIONS = ['direct calls: sensor timestamps are non-decreasing and dump mid-
                'sorts: unsorted raw samples are generated there); numpy searchsorted is modelled for sorted arrays',
                'times are dyadic rationals so that float64 comparisons in katdal are exact',
                'array-valued (wrapped) sensors need at least one sample on the direct path (wrappedness is inferred from '
-               'the first value) and their greedy values are handed over wrapped, except in the single F27 probe',
+               'the first value); their greedy values are handed over unwrapped (as documented) or wrapped',
                'equality of sensor values is equality of their ids (str, int, same-shape ndarray / tuple via ComparableArrayWrapper) '
                'in the direct / cache / table cases; the value cases (c10_values) let the model of ComparableArrayWrapper.__eq__ assign '
                'the ids and decode by kind, shape and elements; np.array_equal is modelled (same shape, elementwise ==, NaN unequal)',
@@ -106,9 +106,9 @@ def real_inputs(case):
     if case['init'] is not None:
         kw['initial_value'] = enc(rep, case['init'])
     if case['greedy'] is not None:
-        # ndarray-valued greedy values must be handed over wrapped (finding F27: unwrapped ones make
-        # `value in greedy_values` raise); case['raw_greedy'] asks for the documented unwrapped form
-        wrapg = rep == 'warr' and not case.get('raw_greedy')
+        # array-valued greedy values: case['raw_greedy'] = the documented unwrapped form (finding F27, repaired: unwrapped
+        # ndarrays made `value in greedy_values` raise), otherwise wrapped (what callers had to do before the repair)
+        wrapg = wrapped and not case.get('raw_greedy')
         kw['greedy_values'] = [ComparableArrayWrapper(enc(rep, k)) if wrapg else enc(rep, k) for k in case['greedy']]
     if case['ar'] is not None:
         kw['allow_repeats'] = bool(case['ar'])
@@ -279,8 +279,8 @@ def compare(ctx, case, mo, ob=None, prefix=''):
     ctx.traces_validated += 1
     path = case.get('path', 'direct')
     base = prefix + 'path=%s;%s' % (path, classify(case))
-    if case.get('raw_greedy'):
-        base = 'greedy=unwrapped_ndarray;' + base
+    # (finding F27: the unwrapped form of ndarray greedy values made the call RAISE; every other symptom is classified as usual)
+    rbase = 'greedy=unwrapped_ndarray;' + base if case.get('raw_greedy') and case['rep'] == 'warr' else base
     M = parse_model(case, mo)
     model, spec, coded = M['model'], M['spec'], M['coded']
     # ---- the categorical / numerical decision of _extract: against the SPEC (explicit property, else non-float) and,
@@ -318,7 +318,7 @@ def compare(ctx, case, mo, ob=None, prefix=''):
     # ---- property: implementation vs declarative spec
     if in_domain:
         if ob[0] == 'err':
-            ctx.disagree(base + ';symptom=raises', case, ob[1], model, 'sensor_to_categorical raised although a value is '
+            ctx.disagree(rbase + ';symptom=raises', case, ob[1], model, 'sensor_to_categorical raised although a value is '
                          'defined for every dump', spec=spec[1])
         else:
             if ob[4] != spec[1]:
@@ -433,6 +433,8 @@ def gen_case(rng, nmax=7, mmax=9):
         case['P'] = P
     if m == 1 and rng.random() < 0.3:
         case['scalar'] = True
+    if rep in ('warr', 'wtup') and greedy and rng.random() < 0.6:
+        case['raw_greedy'] = True       # greedy values as documented: unwrapped
     return case
 
 
@@ -478,7 +480,7 @@ def gen_cache_case(rng):
 def canon(case):
     return (tuple(case['ts']), tuple(case['vals']), tuple(case['ends']), period_of(case), repr(case['tr']), case['init'],
             tuple(case['greedy'] or ()), case['greedy'] is None, case['ar'], case['rep'], case.get('path', 'direct'),
-            case.get('scalar', False), tuple(case.get('status') or ()), case.get('status') is None, case.get('off'),
+            case.get('scalar', False), bool(case.get('raw_greedy')), tuple(case.get('status') or ()), case.get('status') is None, case.get('off'),
             tuple(case.get('keep') or ()), case.get('keep') is None, case.get('categ'))
 
 
@@ -502,6 +504,8 @@ def run_cases(ctx, cases, tag):
             ctx.count('with_transform')
         if case.get('scalar'):
             ctx.count('scalar_inputs')
+        if case['rep'] in ('warr', 'wtup') and case['greedy']:
+            ctx.count('array_greedy_values=%s' % ('unwrapped' if case.get('raw_greedy') else 'wrapped'))
         if tag == 'cache':
             ts = case['ts']
             ctx.count('cache:unsorted' if any(a > b for a, b in zip(ts, ts[1:])) else 'cache:sorted')
